@@ -26,11 +26,90 @@ def self_attr(node, name=None) -> Optional[str]:
     return None
 
 
+def _stored_attrs_outside_init(repo, cls):
+    """attribute names that some statement outside `cls.__init__` rebinds (`<x>.a = ...`, `<x>.a += ...`, `del <x>.a`, loop / with targets)"""
+    out = set()
+    for m in repo.modules.values():
+        for n in ast.walk(m.tree):
+            if isinstance(n, ast.Attribute) and isinstance(n.ctx, (ast.Store, ast.Del)):
+                out.add((n.attr, id(n)))
+    init = cls.methods.get("__init__")
+    own = {id(n) for n in ast.walk(init.node)} if init is not None else set()
+    return {a for (a, i) in out if i not in own}
+
+
+def unalias_fixed_attrs(repo, cls) -> int:
+    """Normalisation (idempotent, meaning-preserving): inside the methods of `cls`, a local that is bound exactly once, by
+    `name = self.<attr>` where <attr> is bound only in `__init__` (the object it names is fixed for the life of the instance: a
+    container slot, the lock, the budget), is replaced by `self.<attr>` at its uses and the binding is dropped.  `lru = self.lru_deque;
+    lru.remove(k)` thereby reads `self.lru_deque.remove(k)`, which is what every rule about the slots looks for.  Attributes
+    that are rebound elsewhere (a counter) are left alone: a local copy of those is a snapshot, not an alias."""
+    if getattr(cls, "_unaliased", False):
+        return 0
+    cls._unaliased = True
+    rebound = _stored_attrs_outside_init(repo, cls)
+    done = 0
+    for name, m in cls.methods.items():
+        if name == "__init__" or not m.params or m.is_static:
+            continue
+        me = m.params[0]
+        fn = m.node
+        # every binding occurrence of every name in the function (nested scopes included, to stay on the safe side)
+        binds = {}
+        for n in ast.walk(fn):
+            if isinstance(n, ast.Name) and isinstance(n.ctx, (ast.Store, ast.Del)):
+                binds.setdefault(n.id, []).append(n)
+            elif isinstance(n, ast.arg):
+                binds.setdefault(n.arg, []).append(n)
+            elif isinstance(n, (ast.Global, ast.Nonlocal)):
+                for x in n.names:
+                    binds.setdefault(x, []).append(n)
+            elif isinstance(n, ast.ExceptHandler) and n.name:
+                binds.setdefault(n.name, []).append(n)
+            elif isinstance(n, (ast.Import, ast.ImportFrom)):
+                for al in n.names:
+                    binds.setdefault((al.asname or al.name).split(".")[0], []).append(n)
+        alias = {}
+        drop = []
+        for st in ast.walk(fn):
+            if isinstance(st, ast.Assign) and len(st.targets) == 1 and isinstance(st.targets[0], ast.Name):
+                v = st.value
+                if isinstance(v, ast.Attribute) and isinstance(v.value, ast.Name) and v.value.id == me and v.attr not in rebound \
+                        and len(binds.get(st.targets[0].id, [])) == 1 and len(binds.get(me, [])) == 1:
+                    alias[st.targets[0].id] = v.attr
+                    drop.append(st)
+        if not alias:
+            continue
+
+        class T(ast.NodeTransformer):
+            def visit_Name(self, n):
+                if isinstance(n.ctx, ast.Load) and n.id in alias:
+                    return ast.copy_location(ast.Attribute(value=ast.copy_location(ast.Name(id=me, ctx=ast.Load()), n), attr=alias[n.id], ctx=ast.Load()), n)
+                return n
+
+            def generic_visit(self, node):
+                super().generic_visit(node)
+                for fld in ("body", "orelse", "finalbody"):
+                    lst = getattr(node, fld, None)
+                    if isinstance(lst, list) and any(x in drop for x in lst):
+                        kept = [x for x in lst if x not in drop]
+                        if not kept and fld == "body":
+                            kept = [ast.copy_location(ast.Pass(), lst[0])]
+                        setattr(node, fld, kept)
+                return node
+
+        T().visit(fn)
+        ast.fix_missing_locations(fn)
+        done += len(alias)
+    return done
+
+
 class CacheModel:
     def __init__(self, ck):
         self.ck = ck
         repo = ck.repo
         self.cls = repo.cls(CACHE_CLASS)
+        unalias_fixed_attrs(repo, self.cls)
         init = self.cls.methods.get("__init__")
         ck.need(init is not None, "MemoryCache.__init__ not found")
         ck.functions_analysed.add(init.qual)
